@@ -55,6 +55,13 @@ TEXT["C15"] = {
     "design_ref": "DESIGN.md section 3, C15",
 }
 
+TEXT["C16"] = {
+    "technique": "property-based testing (rapid) with an offset-recording source printer + planted-fault injection + metamorphic prefix insertion + exhaustive small strings + native fuzzing",
+    "text": "(1) Layouts written by a printer that knows the byte offset of every lexeme are lexed through the VerifLex hook; the token list must equal the printer's in type, value, trim flag and line/column. (2) For arbitrary strings (exhaustive up to length 5/6 over the lexer alphabet, mutated layouts, native fuzzing) every token's position must lie in the source, be ordered, and hold the token's text. (3) In generated 1-3 file sets exactly one fault of 22 kinds is planted at a known lexeme; the returned *pongo2.Error must name the faulty file, point inside it to text matching its token, for 16 kinds exactly at the planted lexeme, and a random prefix inserted in front must shift the reported offset by exactly its length.",
+    "note": "Trusted: the printer's offset bookkeeping and the line/column arithmetic of the harness; the VerifLex hook (a one-line wrapper around lex). Error kinds other than the 22 planted ones are not examined.",
+    "design_ref": "DESIGN.md section 3, C16",
+}
+
 PENDING_REASON = "check not built yet in this build phase (DESIGN.md section 3 describes the planned PBT check); will be claimed once its quick tier is silent on the unchanged tree and kills its mutants"
 
 
